@@ -6,4 +6,6 @@ require github.com/bool64/cache v0.0.0
 
 require github.com/cespare/xxhash/v2 v2.2.0
 
+require github.com/anishathalye/porcupine v1.3.0
+
 replace github.com/bool64/cache => /repo
